@@ -36,7 +36,7 @@ func DumpIDL(ast *parser.Thrift) (string, error) {
 	var sb stringBuilder
 
 	for _, include := range ast.Includes {
-		sb.writeString(fmt.Sprintf("include \"%s\"\n", include.Path))
+		sb.writeString(fmt.Sprintf("include %s\n", quote(include.Path)))
 	}
 
 	if len(ast.Includes) > 0 {
@@ -54,7 +54,7 @@ func DumpIDL(ast *parser.Thrift) (string, error) {
 	}
 
 	for _, include := range ast.CppIncludes {
-		sb.writeString(fmt.Sprintf("cpp_include \"%s\"\n", include))
+		sb.writeString(fmt.Sprintf("cpp_include %s\n", quote(include)))
 	}
 
 	if len(ast.CppIncludes) > 0 {
@@ -163,14 +163,7 @@ func DumpIDL(ast *parser.Thrift) (string, error) {
 		sb.writeString("\n\n")
 	}
 
-	escapedString := sb.String()
-	// 把 " 替换为 \"
-	escapedString = strings.Replace(escapedString, "##34;", `\"`, -1)
-	// 如果本身就有 \"，上面的情况就会变成 \\"，给转回 \"
-	escapedString = strings.Replace(escapedString, `\\"`, `\"`, -1)
-	// tag 的前后符号统一采用 "
-	outString := strings.Replace(escapedString, "#OUTQUOTES", "\"", -1)
-	return html.UnescapeString(outString), nil
+	return sb.String(), nil
 }
 
 func typeName(t *parser.Type) string {
@@ -198,10 +191,6 @@ type stringBuilder struct {
 }
 
 func (s *stringBuilder) writeString(str string) {
-	if strings.Contains(str, "&") {
-		// 将 & 转义为 &amp;
-		str = strings.ReplaceAll(str, "&", "&amp;")
-	}
 	s.buffer.WriteString(str)
 }
 
@@ -209,13 +198,34 @@ func (s *stringBuilder) String() string {
 	return s.buffer.String()
 }
 
-func joinQuotes(s string) string {
-	return fmt.Sprintf("%s", "#OUTQUOTES"+s+"#OUTQUOTES")
+// quote writes a literal so that the parser reads back exactly s: the parser unescapes only the enclosing
+// quote and keeps a backslash-backslash pair as it is (docs/string-literals-in-the-IDL.md). No placeholders, no
+// HTML entities. Double quotes are used unless s has a double quote after an odd run of backslashes (such a
+// text can only be written in single quotes).
+func quote(s string) string {
+	q := `"`
+	if oddBackslashRunBefore(s, '"') && !oddBackslashRunBefore(s, '\'') {
+		q = "'"
+	}
+	return q + strings.ReplaceAll(s, q, `\`+q) + q
 }
 
-func replaceQuotes(s string) string {
-	out := strings.Replace(s, "\"", "#OUTQUOTES", -1)
-	return out
+func oddBackslashRunBefore(s string, quote byte) bool {
+	run := 0
+	for i := 0; i < len(s); i++ {
+		switch s[i] {
+		case '\\':
+			run++
+		case quote:
+			if run%2 == 1 {
+				return true
+			}
+			run = 0
+		default:
+			run = 0
+		}
+	}
+	return false
 }
 
 func printAnnotation(sb *stringBuilder, a parser.Annotations) {
@@ -225,9 +235,7 @@ func printAnnotation(sb *stringBuilder, a parser.Annotations) {
 	sb.writeString("(")
 	for i, anno := range a {
 		for ii, v := range anno.Values {
-			val := strings.ReplaceAll(joinQuotes(v), `"`, "##34;")
-
-			sb.writeString(fmt.Sprintf("%s = %s", anno.Key, val))
+			sb.writeString(fmt.Sprintf("%s = %s", anno.Key, quote(v)))
 			if i != len(a)-1 || ii != len(anno.Values)-1 {
 				sb.writeString(", ")
 			}
@@ -238,7 +246,7 @@ func printAnnotation(sb *stringBuilder, a parser.Annotations) {
 
 func printComment(sb *stringBuilder, comment, prefix string) {
 	if len(strings.TrimSpace(comment)) > 0 {
-		sb.writeString(prefix + replaceQuotes(comment) + "\n")
+		sb.writeString(prefix + comment + "\n")
 	}
 }
 
@@ -281,9 +289,7 @@ func printConstTypedValue(sb *stringBuilder, ctv *parser.ConstTypedValue) {
 	} else if ctv.Int != nil {
 		sb.writeString(fmt.Sprintf("%d", *ctv.Int))
 	} else if ctv.Literal != nil {
-		val := *ctv.Literal
-		val = strings.ReplaceAll(joinQuotes(val), `"`, "##34;")
-		sb.writeString(fmt.Sprintf("%s", val))
+		sb.writeString(quote(*ctv.Literal))
 	} else if ctv.Identifier != nil {
 		sb.writeString(fmt.Sprintf("%s", *ctv.Identifier))
 	} else if ctv.IsSetList() {
